@@ -1634,18 +1634,21 @@ impl RunningProgram {
     }
 
     fn dump_custom_registers_y86<W: Write>(&self, result: &mut W) -> Result<(), Error> {
-        let mut banks_by_letter: HashMap<char, &RegisterBank> = HashMap::new();
+        // several banks may share an output prefix letter: all of them are shown, in declaration order
+        let mut banks_by_letter: HashMap<char, Vec<&RegisterBank>> = HashMap::new();
         if self.program.register_banks.len() == 0 {
             return Ok(());
         }
         for bank in &self.program.register_banks {
             let letter = bank.stall_signal.chars().last().unwrap();
-            banks_by_letter.insert(letter, bank);
+            banks_by_letter.entry(letter).or_insert_with(Vec::new).push(bank);
         }
         let order = ['P', 'F', 'D', 'E', 'M', 'W'];
         for letter in order.iter() {
-            if let Some(bank) = banks_by_letter.get(letter) {
-                self.dump_bank(result, bank)?;
+            if let Some(banks) = banks_by_letter.get(letter) {
+                for bank in banks {
+                    self.dump_bank(result, bank)?;
+                }
             }
         }
         for letter in order.iter() {
@@ -1654,8 +1657,9 @@ impl RunningProgram {
         let mut letters: Vec<char> = banks_by_letter.keys().map(|&x| x).collect();
         letters.sort();
         for letter in letters {
-            let bank = banks_by_letter.get(&letter).unwrap();
-            self.dump_bank(result, bank)?;
+            for bank in banks_by_letter.get(&letter).unwrap() {
+                self.dump_bank(result, bank)?;
+            }
         }
         Ok(())
     }
